@@ -207,6 +207,14 @@ def judge(kind, op, o, i, ok):
                     return f"{op}({i}): an already labelled frame was re-labelled to {lbl!r}"
             elif lbl not in [ORDER[k] for k in pos]:
                 return f"{op}({i}): unlabelled frame landed at position {pos} but got label {lbl!r} (expected {[ORDER[k] for k in pos]})"
+    if kind == 'ordered' and cad.frames and all('order_label' in f.metadata for f in cad.frames):
+        # filtering goes by the label each frame carries, wherever the frame now sits
+        for lbl in sorted({f.metadata['order_label'] for f in cad.frames} | {'Q'}):
+            got = cad.by_label(lbl)
+            want_l = [f for f in cad.frames if f.metadata['order_label'] == lbl]
+            if not same(list(got.frames), want_l):
+                return (f"{op}({i}): by_label({lbl!r}) returned the frames at positions {[k for k, g in enumerate(cad.frames) if any(g is h for h in got.frames)]}, "
+                        f"the frames carrying that label are at {[k for k, g in enumerate(cad.frames) if any(g is h for h in want_l)]}")
     return None
 
 
